@@ -247,28 +247,30 @@ class NumericalGradient(Operator):
         # in direction `e_i` is divided by the weight `<e_i, e_i>`.
         dfdx = self.domain.zero()
         dx = self.domain.zero()
+        # Multi-indices of all entries (the domain can have several axes)
+        indices = list(np.ndindex(self.domain.shape))
 
         if self.method == 'backward':
             fx = self.functional(x)
-            for i in range(self.domain.size):
-                dx[i - 1] = 0  # reset step from last iteration
-                dx[i] = self.step
-                dfdx[i] = ((fx - self.functional(x - dx)) /
-                           (dx.inner(dx) / self.step ** 2))
+            for k, idx in enumerate(indices):
+                dx[indices[k - 1]] = 0  # reset step from last iteration
+                dx[idx] = self.step
+                dfdx[idx] = ((fx - self.functional(x - dx)) /
+                             (dx.inner(dx) / self.step ** 2))
         elif self.method == 'forward':
             fx = self.functional(x)
-            for i in range(self.domain.size):
-                dx[i - 1] = 0  # reset step from last iteration
-                dx[i] = self.step
-                dfdx[i] = ((self.functional(x + dx) - fx) /
-                           (dx.inner(dx) / self.step ** 2))
+            for k, idx in enumerate(indices):
+                dx[indices[k - 1]] = 0  # reset step from last iteration
+                dx[idx] = self.step
+                dfdx[idx] = ((self.functional(x + dx) - fx) /
+                             (dx.inner(dx) / self.step ** 2))
         elif self.method == 'central':
-            for i in range(self.domain.size):
-                dx[i - 1] = 0  # reset step from last iteration
-                dx[i] = self.step / 2
-                dfdx[i] = ((self.functional(x + dx) -
-                            self.functional(x - dx)) /
-                           (dx.inner(dx) / (self.step / 2) ** 2))
+            for k, idx in enumerate(indices):
+                dx[indices[k - 1]] = 0  # reset step from last iteration
+                dx[idx] = self.step / 2
+                dfdx[idx] = ((self.functional(x + dx) -
+                              self.functional(x - dx)) /
+                             (dx.inner(dx) / (self.step / 2) ** 2))
         else:
             raise RuntimeError('unknown method')
 
